@@ -344,7 +344,7 @@ prop('C09',
      rule=("Pictures decoded from a tape: height 32*k (k 0..8 and {31,32,33,47,63,64,65,100}, thorough ..64), 256 pseudo-random colours (one in six grey so red==blue), pseudo-random pixels, built with the factory in BOTH scan-line "
            "orientations. Oracle per picture and orientation: WriteCustomTileset bytes == an independent description of the format (PBMP + 1068+32h, head 0x14 {2,32,h,8,8}, PPAL 1048, head 4 {1}, "
            "data 1024 with blue-green-red-alpha entries, data 32h with rows top-down) and identical for both orientations; the caller's bitmap is unchanged; ReadTileset of those bytes gives the same "
-           "logical rows and colours in top-down orientation; ReadTileset of the picture stored as a standard bitmap gives the same picture in the stored orientation. Signature cases: random "
+           "logical rows and colours in top-down orientation; ReadTileset of the picture stored as a standard bitmap gives the same picture in the stored orientation. Partial-colour-table pictures (one case in seven; sweep k in {1,2,16,255} x heights 0,32,64 x both orientations): the picture stored as a standard bitmap with k < 256 used colours loads with a k-entry palette, its custom-format bytes still have every section of the described shape (256-entry palette section; the unused entries are not prescribed) and load back to the same rows and k colours. Signature cases: random "
            "prefixes / PBMP / one-bit neighbours / 'BM' at stream positions 0 and > 0: PeekIsCustomTileset <=> the next four bytes are PBMP and Position() unchanged (also when it throws on a "
            "short stream). Violating pictures (depth 1/4, width != 32, height not a multiple of 32, depth/width pairs that still give 32-byte rows - 4 bit x 63..64, 1 bit x 249..256 -, arbitrary non-tileset (depth,width,height) triples) are refused by save (nothing written) and by load; custom byte strings with one validated header "
            "field replaced by boundary values are refused. Sweep: heights 0..12 and {31,32,33,40,63,64,65,75,96,100} tiles (thorough 0..130); all 32 one-bit neighbours of PBMP at two positions; 18 header fields x 20 values. "
